@@ -5,7 +5,9 @@
 //   - TestMergedIterator   table.NewMergedIterator over 1..8 real table readers with generated
 //     overlap: key ordered permutation of the multiset union of the inputs.
 //   - TestStoreMultiFile   several flushes into one kv family (no compaction), then
-//     Snapshot.Load / FindReaders+Get / merged iteration over all files of the version.
+//     Snapshot.Load / FindReaders+Get / merged iteration over all files of the version; 4 of 10 cases
+//     are histories of flushes, level-0 compactions and reopens (levels_test.go): lookups over
+//     versions with files above level 0 (TestStoreLevels runs only those).
 //   - FuzzTableReader      native fuzz target (thorough tier): a valid table must read back exactly;
 //     mutated / arbitrary files are informational only (the property says nothing about corrupt files).
 package c15
@@ -1133,6 +1135,11 @@ func checkFamily(t failer, what string, family kv.Family, files []*tableModel, p
 func TestStoreMultiFile(t *testing.T) {
 	registerMerger()
 	rapid.Check(t, func(t *rapid.T) {
+		// 4 of 10 cases are histories with level-0 compactions (files above level 0, see levels_test.go)
+		if rapid.IntRange(0, 9).Draw(t, "history") >= 6 {
+			levelsCase(t, "TestStoreMultiFile")
+			return
+		}
 		nFiles := rapid.IntRange(1, 8).Draw(t, "files")
 		pool := genKeys(t, "pool", rapid.SampledFrom([]int{8, 60, 300}).Draw(t, "poolBudget"))
 		subsets := genSubsets(t, pool, nFiles)
@@ -1244,7 +1251,7 @@ func TestStoreMultiFile(t *testing.T) {
 		}
 
 		nt := nFiles >= 2 && multi > 0
-		classes := []string{fmt.Sprintf("files=%d", nFiles), "keysInSeveralFiles" + bucket(multi, 0, 1, 10, 100),
+		classes := []string{"history=level0-only", fmt.Sprintf("files=%d", nFiles), "keysInSeveralFiles" + bucket(multi, 0, 1, 10, 100),
 			"absentKeysInsideAFileRange" + bucket(absentInRange, 0, 1, 10, 100), fmt.Sprintf("reopen=%v", reopen)}
 		if rejected > 0 {
 			classes = append(classes, "has-rejected-keys")
